@@ -23,6 +23,15 @@ def lowerStr (s : Str) : Str := s.map lowerAscii
 /-- the six ASCII whitespace characters plus FS/GS/RS/US, which `str.isspace` and `\s` accept -/
 def isSpaceAscii (c : Nat) : Bool := c == 32 || (9 ≤ c && c ≤ 13) || (28 ≤ c && c ≤ 31)
 
+/-- Python's `str.isspace` for one code point (Unicode 15 white space incl. FS/GS/RS/US), used by
+`str.strip()` / `str.split()` without argument -/
+def isSpacePy (c : Nat) : Bool :=
+  (9 ≤ c && c ≤ 13) || (28 ≤ c && c ≤ 32) || c == 0x85 || c == 0xa0 || c == 0x1680 ||
+  (0x2000 ≤ c && c ≤ 0x200a) || c == 0x2028 || c == 0x2029 || c == 0x202f || c == 0x205f || c == 0x3000
+
+/-- `s.strip()` -/
+def strip (s : Str) : Str := ((s.dropWhile isSpacePy).reverse.dropWhile isSpacePy).reverse
+
 /-! ## decimal -/
 
 /-- digits of `n`, most significant first, accumulated -/
